@@ -21,7 +21,7 @@ import vlib
 from vlib import SPEC, OUT
 
 PID = "C11"
-GROUPS = {"A": ["int", "lim", "key"], "B": ["card", "group"], "C": ["stack", "state"]}     # one TLC run (one JVM) per group
+GROUPS = {"A": ["int", "lim", "key"], "B": ["card", "group"], "C": ["stack"], "D": ["state"]}     # one TLC run (one JVM) per group
 TYPES = {"int": ["int", "ints"], "card": ["tcard", "tsec", "vcard", "vsec"], "stack": ["tstack", "vstack", "tss", "vss"],
          "key": ["pub", "sec"], "group": ["vtmf", "com", "vsshe", "vrhe", "ptc", "eotp"],
          "state": ["pvss", "gjkr", "rvss", "zvss", "cdkg", "dss"]}
@@ -74,6 +74,8 @@ def judge_case(c, r, F):
     desc = "%s %s%s" % (who, dims_class(c), " (numerals beyond 2^31)" if c.get("big") else "")
     if r is None:
         F.add("%s:no-result" % ty, "the driver reported nothing for %s" % desc, c); return
+    if r.get("skipped_after_crashes"):
+        return
     if "harness_error" in r:
         raise vlib.Infra("drv_wire could not set up a case of type %s: %s" % (ty, r["harness_error"]))
     if c["c"] == "case":
@@ -86,8 +88,9 @@ def judge_case(c, r, F):
             if k.startswith("ex_") and r[k] != "=":
                 wr = k[3:]
                 if r[k] == "conversion failed":
-                    F.add("%s:%s-writer:refused" % (ty, wr), "the %s writer of the transport encoding refuses (exception) the integer %s (%d base-62 digits)" % (
-                        wr, short(c["txt"].strip(), 60), len(c["txt"].strip())), c)
+                    F.add("%s:%s-writer:refused" % (ty, wr), "%s refuses (exception) to write the integer %s (%d base-62 digits, i.e. a value of the maximal size TMCG_MAX_KEYBITS)" % (
+                        {"gcry": "operator<<(std::ostream&, const gcry_mpi_t) [tmcg_mpz_set_gcry_mpi]", "bigint": "operator<<(std::ostream&, const TMCG_Bigint&)"}.get(wr, wr),
+                        short(c["txt"].strip(), 40), len(c["txt"].strip())), c)
                 else:
                     F.add("%s:%s-writer:text" % (ty, wr), "%s: the %s writer produced %s, specification %s" % (desc, wr, short(r[k], 160), short(c["txt"], 160)), c)
         for name, p in sorted(r.get("paths", {}).items()):
@@ -131,6 +134,7 @@ def run_cases(exe, cases, tag):
     results, crashed = {}, []
     todo = cases
     rnd = 0
+    crashes_of = {}
     while todo:
         cp = os.path.join(d, "cases-%s-%d.ndjson" % (tag, rnd)); rp = os.path.join(d, "results-%s-%d.ndjson" % (tag, rnd))
         vlib.write_ndjson(cp, todo)
@@ -155,16 +159,22 @@ def run_cases(exe, cases, tag):
             raise vlib.Infra("drv_wire died (exit %s) outside a case: %s" % (rc, se[-300:]))
         crashed.append((last_begin, rc, se[-400:]))
         ids = [c["id"] for c in todo]
+        bad_ty = todo[ids.index(last_begin)]["ty"]
         todo = todo[ids.index(last_begin) + 1:]
+        crashes_of[bad_ty] = crashes_of.get(bad_ty, 0) + 1
+        if crashes_of[bad_ty] >= 3:          # three kills by one type are enough: its remaining cases are not run
+            skipped = [c["id"] for c in todo if c["ty"] == bad_ty]
+            todo = [c for c in todo if c["ty"] != bad_ty]
+            for i in skipped: results[i] = {"skipped_after_crashes": True}
         rnd += 1
-        if rnd > 20:
+        if rnd > 80:
             raise vlib.Infra("drv_wire keeps dying")
     return results, crashed
 
 def group_A(exe, group, tier, seed):
     """one TLC run: the theorems of the specification + the cases; then the real code on these cases"""
     cfg = "GEN_Wire_%s_%s.cfg" % (group, "q" if tier == "quick" else "t")
-    r = vlib.tlc("WireGen", cfg, workers=4 if tier == "quick" else 5, timeout=1000 if tier == "quick" else 3000, xmx="6g", env=JENV)
+    r = vlib.tlc("WireGen", cfg, workers=3 if tier == "quick" else 5, timeout=1000 if tier == "quick" else 3000, xmx="6g", env=JENV)
     vlib.log("TLC WireGen %s: %d states, %.0fs" % (cfg, r.distinct, r.wall))
     if r.error:
         raise vlib.Infra("TLC %s: %s" % (cfg, r.error))
@@ -209,11 +219,29 @@ def group_A(exe, group, tier, seed):
 
 # ------------------------------------------------------------------------------------------------
 # direction B
+def bad_event(F, b, ev, seed):
+    """b: the line TLC printed for an event it judged bad"""
+    key = "recorded:%s:%s" % (b.get("ty"), b["kind"])
+    what = "%s (made by the library, seed %s): " % (b.get("what"), ev.get("seed", seed))
+    if b["kind"] == "export-text":
+        what += "exported text %s is not the text of its members, specification %s" % (short(ev.get("txt"), 160), short(b.get("want"), 160))
+    elif b["kind"] in ("import", "stream"):
+        p = ev.get("imp" if b["kind"] == "import" else "str", {})
+        what += "import of the object's own export (%s path): %s; text %s" % (b["kind"], short(p, 200), short(ev.get("txt"), 160))
+    elif b["kind"] == "specification-round-trip":
+        # the text is the text of the members, but the format cannot carry these members: reading the text gives another object
+        key = "recorded:%s:not-representable" % b.get("ty")
+        what += ("the library made and exported an object that cannot be imported again (also by the specification's parser: a field "
+                 "contains the delimiter); import of the exported text: %s; text %s" % (short(ev.get("imp"), 120), short(ev.get("txt"), 160)))
+    else:
+        what += b["kind"]
+    F.add(key, what, {"event": ev})
+
 def section_B(exe, tier, seed):
     d = os.path.join(OUT, PID)
     F = Findings()
     events = []
-    seeds = [seed] if tier == "quick" else [seed + k for k in range(6)]
+    seeds = [seed] if tier == "quick" else [seed + k for k in range(24)]
     for s in seeds:
         tp = os.path.join(d, "trace-%d.ndjson" % s)
         rc, so, se, wall = vlib.run_driver(exe, ["record", s, 0 if tier == "quick" else 1, tp], timeout=1500)
@@ -252,17 +280,7 @@ def section_B(exe, tier, seed):
     badidx = set(b["bad"] for b in bad)
     for b in bad:
         if b["bad"] == len(events) + 1: continue
-        ev = events[b["bad"] - 1]
-        key = "recorded:%s:%s" % (b.get("ty"), b["kind"])
-        what = "%s (made by the library, seed %d): " % (b.get("what"), ev.get("seed", seed))
-        if b["kind"] == "export-text":
-            what += "exported text %s is not the text of its members, specification %s" % (short(ev.get("txt"), 160), short(b.get("want"), 160))
-        elif b["kind"] in ("import", "stream"):
-            p = ev.get("imp" if b["kind"] == "import" else "str", {})
-            what += "import of the object's own export (%s path): %s; text %s" % (b["kind"], short(p, 200), short(ev.get("txt"), 160))
-        else:
-            what += b["kind"]
-        F.add(key, what, {"event": ev})
+        bad_event(F, b, events[b["bad"] - 1], seed)
     for i, e in enumerate(events):
         if (i + 1) not in badidx and e.get("e") == "Obj":
             good += 1
@@ -279,11 +297,11 @@ def check_limits(exe):
             raise vlib.Infra("the library is built with %s = %s, the specification is configured for %s" % (k, info.get(k), v))
     return info
 
-def report(ck, F):
+def report(ck, F, replay_path=None):
     for key in sorted(F.by_key):
         e = F.by_key[key]
         what = e["what"] + (" (%d cases of this kind)" % e["n"] if e["n"] > 1 else "")
-        ck.violation(key, what, {"kind": "B" if key.startswith("recorded:") else "A", "examples": e["examples"]})
+        ck.violation(key, what, {"kind": "B" if key.startswith("recorded:") else "A", "examples": e["examples"]}, replay_path=replay_path)
 
 def run(tier, seed):
     ck = vlib.Check(PID, tier, seed, "model_checking")
@@ -291,7 +309,7 @@ def run(tier, seed):
     exe = vlib.build_driver("drv_wire", extra_src=["seam_rng.cc", "seam_clock.cc"])
     info = check_limits(exe)
     allF = Findings()
-    with cf.ThreadPoolExecutor(max_workers=4) as ex:
+    with cf.ThreadPoolExecutor(max_workers=5) as ex:
         futB = ex.submit(section_B, exe, tier, seed)
         futA = {g: ex.submit(group_A, exe, g, tier, seed) for g in GROUPS}
         for g in sorted(futA):
@@ -332,10 +350,10 @@ def run(tier, seed):
                       "(spec/WireTrace.tla) accepted; distinct = distinct (type, text)" % ("PQuick" if tier == "quick" else "PThorough"))
     ck.cov["exhaustive"] = False
     ck.cov["exhaustive_parts"] = ["all card / card secret dimensions 1..32 x 1..10", "all permutations of stack secrets of size <= %d" % (4 if tier == "quick" else 5),
-                                  "all integers of the range %s" % ("-4000..4000" if tier == "quick" else "-20000..20000"),
-                                  "stack sizes %s" % ("1 2 3 4 7 64 511 512" if tier == "quick" else "1..512 (discrete-log and 1 x 1 / 2 x 3 / 3 x 1 quadratic-residue cards)")]
+                                  "all integers of the range %s" % ("-3000..3000" if tier == "quick" else "-50000..50000"),
+                                  "stack sizes %s" % ("1 2 3 4 7 64 511 512" if tier == "quick" else "1..100 127..129 200 255..257 300 400 500 510 511 512")]
     ck.cov["library_limits"] = info
-    ck.assumptions += ["key fields name / email / type / nizk contain neither '|' nor a newline (the format has no escaping); the library does not enforce this when a key is generated",
+    ck.assumptions += ["direction A: key fields name / email / type / nizk contain neither '|' nor a newline (the format has no escaping); direction B generates one key whose name contains '|'",
                        "stack secrets hold a permutation of 0..n-1 (what the toolbox creates); empty stacks are outside the property (sizes 1..TMCG_MAX_CARDS)",
                        "numerals beyond 2^31 are opaque to the specification (identity of the digit string is checked, not its value); 2^k, 2^k +- 1 (k <= 128) are computed by the spec with schoolbook arithmetic",
                        "maximal length = TMCG_MAX_KEYBITS (16384) bits = 2752 base-62 digits",
@@ -350,20 +368,30 @@ def replay(path, seed):
     case = obj.get("case") or {}
     exe = vlib.build_driver("drv_wire", extra_src=["seam_rng.cc", "seam_clock.cc"])
     F = Findings()
+    tp = os.path.join(OUT, PID, "replay-trace.ndjson")
     if case.get("kind") == "B":
         evs = [x["event"] for x in case["examples"] if "event" in x]
-        tp = os.path.join(OUT, PID, "replay-trace.ndjson")
+        lines = []
+    else:
+        lines = [x for x in case.get("examples", []) if "ty" in x]
+        # the stored expectation is recomputed: TLC must find the stored text to be the text of the stored object
+        fine = {"ok": True, "eq": True, "re": "="}
+        evs = [{"e": "Obj", "what": "stored case", "o": x["o"], "txt": x["txt"], "imp": fine, "str": fine} for x in lines if x.get("c") == "case"]
+    if evs:
         vlib.write_ndjson(tp, evs)
         r = vlib.tlc("WireTrace", "WireTrace.cfg", workers=1, env=dict(JENV, TRACE=tp), timeout=600, xmx="4g")
         if r.error or r.violation:
             raise vlib.Infra("trace validation: %s %s" % (r.error, r.violation))
         ck.add_tlc("WireTrace", r)
         for b in [x for x in r.printed if isinstance(x, dict) and "bad" in x]:
-            F.add("recorded:%s:%s" % (b.get("ty"), b["kind"]), "%s: %s" % (b.get("what"), b["kind"]), {"event": evs[b["bad"] - 1]})
+            if case.get("kind") == "B":
+                bad_event(F, b, evs[b["bad"] - 1], seed)
+            else:
+                raise vlib.Infra("the replay file does not hold a case of the specification (%s)" % b["kind"])
+    if case.get("kind") == "B":
         ck.add_cases("B:replayed", len(evs), [(e["o"]["ty"], e["txt"]) for e in evs])
         ck.sample({"replayed_events": len(evs)})
     else:
-        lines = [x for x in case.get("examples", []) if "ty" in x]
         for i, x in enumerate(lines): x["id"] = "R%d" % i
         results, crashed = run_cases(exe, lines, "replay")
         for cid, rc, se in crashed:
@@ -374,5 +402,5 @@ def replay(path, seed):
                 judge_case(x, results.get(x["id"]), F)
         ck.add_cases("A:replayed", len(lines), [(x["ty"], x["txt"]) for x in lines])
         ck.sample({"replayed": [short(x, 400) for x in lines[:2]]})
-    report(ck, F)
+    report(ck, F, replay_path=path)
     return ck.finish()
